@@ -1330,7 +1330,7 @@ def main(run):
 
     open_ids = sorted(run.known_open)
     nw = 8 if run.tier == "quick" else 16
-    total = run.n(1200, 60000)
+    total = run.n(1200, 24000)
     steps = run.n(40, 60)
     per = total // nw
     common.pool_map(run, __name__, "worker_machine",
